@@ -7,7 +7,8 @@
   ``nxpimage mbi export``; and the call sequence of that command (``export_like_nxpimage``);
 * the expected values an oracle needs (payload bytes, TrustZone bytes, flags word ...) computed without spsdk.
 
-Only the functions named ``export_like_nxpimage`` / ``parse_like_nxpimage`` import spsdk (lazily).
+Only the functions named ``export_like_nxpimage`` / ``parse_like_nxpimage`` import spsdk (lazily); ``nxpimage_mbi_export`` runs
+the real command through vf.cli.
 """
 from __future__ import annotations
 
@@ -787,6 +788,33 @@ def export_like_nxpimage(config_path: str):
     mbi_obj.load_from_config(config_data, search_paths=[config_dir, "."])
     image = mbi_obj.export_image().export()
     return mbi_obj, bytes(image)
+
+
+def nxpimage_mbi_export(b: "Built", o, config_path: str = "", what: str = "mbi_export"):
+    """The REAL command `nxpimage mbi export -c <config>` (click test runner) on the files of a materialised case.
+
+    Returns (bytes of the file the configuration names as masterBootOutputFile, vf.cli.Result) or (None, None) after booking
+    the failure under sub-oracle "cli".  The working directory of the call is an empty scratch directory, as for a user who
+    starts the tool somewhere else than next to the configuration."""
+    from vf import cli
+
+    path = config_path or b.config_path
+    with open(path, encoding="utf-8") as f:
+        out_name = yaml.safe_load(f)["masterBootOutputFile"]
+    out = os.path.join(os.path.dirname(path), out_name)
+    if os.path.exists(out):
+        os.remove(out)  # never read a stale file
+    res = cli.run(o, what, ["mbi", "export", "-c", path], cwd=os.path.join(os.path.dirname(b.dir), "cli-cwd"))
+    if res is None:
+        return None, None
+    return cli.read(o, what, out), res
+
+
+def deterministic_build(b: "Built") -> bool:
+    """Two builds from the same files are byte-identical: nothing random goes in (no ECDSA signature, counter IV given)."""
+    if b.v21 or b.vx:
+        return False
+    return not (b.cls["image_type"] == 3 and b.iv is None)
 
 
 def rsa_public_numbers(desc: dict) -> tuple:
